@@ -210,7 +210,10 @@ def run_equality(R, variant):
                            (None, np.ones(2, np.float32)), (None, np.float32(0.0)),
                            (np.float32(250.0), np.float32(250.001)), (np.ones(3, np.float32), np.ones(3, np.float32) + np.float32(3e-7)),
                            (np.float64(1.0), np.float64(1.0) + 1e-12)):
-                for a_, b_ in (({"x": la, "y": [np.int8(1)]}, {"x": lb, "y": [np.int8(1)]}), ({"x": lb, "y": [np.int8(1)]}, {"x": la, "y": [np.int8(1)]})):
+                # the differing leaf first ("x" < "y") and last ("y" < "z") in traversal order: a comparison that zips two leaf lists of
+                # different length only loses a TRAILING leaf
+                for a_, b_ in (({"x": la, "y": [np.int8(1)]}, {"x": lb, "y": [np.int8(1)]}), ({"x": lb, "y": [np.int8(1)]}, {"x": la, "y": [np.int8(1)]}),
+                               ({"x": la, "y": [np.int8(1)], "z": la}, {"x": la, "y": [np.int8(1)], "z": lb}), ({"x": lb, "y": [np.int8(1)], "z": lb}, {"x": lb, "y": [np.int8(1)], "z": la})):
                     try:
                         eq = T.is_equal_pytree(a_, b_)
                     except Exception as e:  # noqa
@@ -230,7 +233,7 @@ def run_equality(R, variant):
                     except Exception as e:  # noqa
                         same = f"raised {type(e).__name__}"
                     if eq is not False or dif != "returns" or same != "AssertionError":
-                        wrong.append({"leaves": [repr(a_["x"])[:40], repr(b_["x"])[:40]], "shapes": [list(np.shape(a_["x"])), list(np.shape(b_["x"]))], "is_equal_pytree": str(eq), "assert_trees_are_different": dif, "assert_trees_are_equal": same})
+                        wrong.append({"leaves": [repr(a_.get("z", a_["x"]))[:40], repr(b_.get("z", b_["x"]))[:40]], "position": "last" if "z" in a_ else "first", "is_equal_pytree": str(eq), "assert_trees_are_different": dif, "assert_trees_are_equal": same})
                     R.validated += 3
             T.np = P.NpShim()
             R.structural("leaves of different (also broadcast-compatible) shapes, None vs array, floats one ulp / 1e-12 apart: is_equal_pytree False, assert_trees_are_different returns, assert_trees_are_equal raises", not wrong,
